@@ -216,6 +216,10 @@ enum Cause {
     Panic,
     /// the exiting actor's task is dropped before its k-th poll (task cancellation)
     Abort(usize),
+    /// stop, with a post_stop that takes a while: the actor is Stopping, its child set still open
+    SlowStop,
+    /// drain with a backlog of slow messages: the actor is Draining for a while
+    DrainBacklog,
 }
 #[derive(Clone, Copy, Debug, PartialEq, Eq)]
 enum Race {
@@ -242,7 +246,12 @@ fn live_body(shape: Shape, at_root: bool, cause: Cause, race: Race, local_child:
                 let log = log.clone();
                 let spawner = spawner.clone();
                 async move {
-                    let a = args(id, Prog::default(), &log);
+                    let prog = if matches!(cause, Cause::SlowStop) && (id == "R" || id == "A") {
+                        Prog { post_stop: vec![Step::Yield, Step::SleepMs(2), Step::Yield], ..Default::default() }
+                    } else {
+                        Prog::default()
+                    };
+                    let a = args(id, prog, &log);
                     // (named: the task-cut injection selects the actor task by name)
                     let r = match (sup, local) {
                         (None, _) => Actor::spawn(Some(id.into()), Probe, a).await,
@@ -291,6 +300,12 @@ fn live_body(shape: Shape, at_root: bool, cause: Cause, race: Race, local_child:
                     Cause::Panic => {
                         let _ = d2.cast(do_msg(1, vec![Step::Panic("boom")]));
                     }
+                    Cause::SlowStop => d2.stop(None),
+                    Cause::DrainBacklog => {
+                        let _ = d2.cast(do_msg(1, vec![Step::SleepMs(2), Step::Tick]));
+                        let _ = d2.cast(do_msg(2, vec![Step::SleepMs(2)]));
+                        let _ = d2.drain();
+                    }
                     Cause::Abort(_) => {
                         // keep the actor task busy so that its k-th poll comes
                         let _ = d2.cast(do_msg(1, vec![Step::Yield, Step::Tick, Step::Yield, Step::Tick]));
@@ -300,6 +315,12 @@ fn live_body(shape: Shape, at_root: bool, cause: Cause, race: Race, local_child:
             });
             let (a3, b3, o3, log3, cells3) = (a.clone(), b.clone(), o.clone(), log.clone(), cells.clone());
             let racer = vsched::spawn("racer", async move {
+                if matches!(cause, Cause::SlowStop | Cause::DrainBacklog) {
+                    // land somewhere inside the slow exit (every round up to a small horizon is tried)
+                    for _ in 0..vsched::choose_free("racer-delay", 6) {
+                        vsched::yield_now().await;
+                    }
+                }
                 match race {
                     Race::None => ("none", true, None),
                     Race::SpawnUnderDying => {
@@ -563,6 +584,7 @@ fn instant_child_body(cause: Cause, manual_link: bool, local: bool) -> vsched::B
                 Cause::Abort(_) => {
                     let _ = p.cast(do_msg(1, vec![Step::Yield, Step::Tick, Step::Yield]));
                 }
+                Cause::SlowStop | Cause::DrainBacklog => p.stop(None),
             }
             vsched::quiesce_time();
             let _ = ph.await;
@@ -640,6 +662,13 @@ pub fn plan(tier: &str) -> Plan {
                     }
                 }
             }
+        }
+    }
+    // slow exits: the exiting node is Stopping (inside post_stop) or Draining (backlog) for a while, and a child
+    // is relinked away / a new child linked in / unlinked during that time
+    for cause in [Cause::SlowStop, Cause::DrainBacklog] {
+        for (shape, at_root, race) in [(Shape::Chain, false, Race::RelinkOut), (Shape::Bushy, false, Race::RelinkOut), (Shape::Chain, false, Race::LinkIn), (Shape::Chain, false, Race::Unlink)] {
+            live.push((shape, at_root, cause, race, false));
         }
     }
     // exits by task cancellation: the exiting node's task is dropped before its k-th poll
